@@ -911,6 +911,13 @@ func (s *Session) State() SessionState {
 	return s.state
 }
 
+// outputClosed reports whether the output stream has been closed.
+// Transmit functions call it while holding the output lock (the lock under
+// which closeSession sets the bit), so the answer cannot change under them.
+func (s *Session) outputClosed() bool {
+	return s.State()&OutputStreamClosed == OutputStreamClosed
+}
+
 // In returns information about the input stream.
 func (s *Session) In() stream.Info {
 	return s.in.Info
@@ -954,6 +961,9 @@ func (s *Session) Encode(ctx context.Context, v interface{}) error {
 	s.out.Lock()
 	defer s.out.Unlock()
 	verifhook.Yield("encode.locked")
+	if s.outputClosed() {
+		return ErrOutputStreamClosed
+	}
 
 	defer setWriteDeadline(ctx, s.conn)()
 	return marshal.EncodeXML(s.out.e, v)
@@ -967,6 +977,9 @@ func (s *Session) EncodeElement(ctx context.Context, v interface{}, start xml.St
 	s.out.Lock()
 	defer s.out.Unlock()
 	verifhook.Yield("encodeelement.locked")
+	if s.outputClosed() {
+		return ErrOutputStreamClosed
+	}
 
 	defer setWriteDeadline(ctx, s.conn)()
 	return marshal.EncodeXMLElement(s.out.e, v, start)
@@ -992,6 +1005,9 @@ func send(ctx context.Context, s *Session, r xml.TokenReader, start *xml.StartEl
 	s.out.Lock()
 	defer s.out.Unlock()
 	verifhook.Yield("send.locked")
+	if s.outputClosed() {
+		return ErrOutputStreamClosed
+	}
 
 	defer setWriteDeadline(ctx, s.conn)()
 
